@@ -1,47 +1,84 @@
 """C12 registered intermediate definitions (formula IR)."""
 from __future__ import annotations
 
-import ast
 import json
 import os
+import re
 
-from ..model import AnalysisError, U, calls_in, call_name, walk_fn, kwarg
-from ..pathcond import conditions
-from . import common
-from .itmd_ir import registry, definition, canonical, show, space_of, Poly, _Typing, _factor_indices
+from ..model import AnalysisError
+from .itmd_ir import canonical, show, space_of, Poly, tensor_factor, _Typing, _factor_indices
+from .itmd_sx import registry_sx as registry, definition_sx, substituted, builder
 
 EXPLANATION = (
-    "The body of every _build_expanded_itmd is interpreted symbolically (formula IR: index "
-    "variables, eri/fock/orb_energy factors, calls of other intermediates, Rational prefactors, "
-    "+ - * /, permute, subs) and brought into a normal form modulo renaming of contracted indices "
-    "and the declared (anti)symmetry of every factor. R12a: index typing (arity and position-wise "
-    "space of every factor; each target index exactly once and each other index exactly twice per "
-    "term outside the denominator; denominators carry target indices only; declared target and "
-    "contracted tuples equal what the formula uses). R12b: _build_tensor (slices partition the "
-    "indices; amplitudes virtual upper / occupied lower; order digit equals _order; class name "
-    "encodes rank/order/space). R12d: every permutational symmetry declared for the tensor "
-    "(antisymmetry inside same-space index groups, bra-ket symmetry) holds for the normal form of "
-    "the definition, assuming the referenced intermediates have their declared symmetry. R12g: "
-    "definitions that expand an intermediate with hidden contracted indices minimise with "
-    "substitute_contracted() and recompute the contracted tuple from atoms(Index) - target. R12i: "
-    "perturbation order of every term equals _order (maximum for residuals). R12h: the normal form "
-    "equals the reference normal form recorded for the pinned tree (cross-checked once against the "
-    "derived amplitudes/densities/residuals).")
+    "Everything is decided on values obtained by abstract evaluation (sa.symex) of intermediates.py, nothing on the "
+    "spelling of the source. Class table: the class attributes of every subclass of RegisteredIntermediate are evaluated, "
+    "_build_tensor (own or inherited) is evaluated on the default index names with the tensor constructors of "
+    "sympy_objects.py as vocabulary (arguments bound to the parameter names of __new__) and the class table is read off "
+    "the constructed tensor value. Definitions: _build_expanded_itmd is evaluated for fully_expand=False and =True on "
+    "model values (index names; polynomials of eri/fock/orb_energy factors, references of other intermediates, Rational "
+    "prefactors, orbital energy denominators) through helpers, closures, loops, comprehensions, temporaries; eri/fock/"
+    "orb_energy are evaluated through down to the tensor constructors; tensor()/expand_itmd() of a referenced intermediate "
+    "are modelled by their contract (validated indices; cached base expression with the targets substituted and every "
+    "declared contracted index replaced by a fresh one, undeclared ones leak). The polynomials are brought into a normal "
+    "form modulo renaming of contracted indices and the declared (anti)symmetry of every factor. R12c: eri/fock/orb_energy "
+    "build <pq||rs> (antisymmetric 2/2), f_pq (1/1), e_p and refuse any other number of indices. R12a: index typing of "
+    "the once expanded variant (arity and position-wise space of every factor; each target index exactly once and each "
+    "other index exactly twice per term outside the denominator; denominators carry target indices only; declared target "
+    "and contracted tuples equal what the formula uses). R12b: _build_tensor (index groups partition the indices; "
+    "amplitudes virtual upper / occupied lower; order digit equals _order; class name encodes rank/order/space). R12d: "
+    "every permutational symmetry declared for the tensor (symmetry/antisymmetry inside same-space index groups, bra-ket "
+    "(anti)symmetry) holds for the normal form of the definition, assuming the referenced intermediates have their "
+    "declared symmetry. R12g: the fully expanded variant (the library default) is well formed and the contracted tuple it "
+    "returns is exactly the set of summation indices of the cached expression it returns, including the indices brought "
+    "in by the expanded intermediates. R12j: the fully expanded variant equals the once expanded variant with the fully "
+    "expanded definitions of the referenced intermediates inserted (residuals: equals the once expanded variant). R12i: "
+    "perturbation order of every term equals _order (maximum for residuals). R12h: the normal form equals the reference "
+    "normal form recorded for the pinned tree (cross-checked once against the derived amplitudes/densities/residuals).")
 ASSUMPTIONS = [
     "real orbitals (<pq||rs> = <rs||pq>, f_pq = f_qp) as required by the factorisation routines",
     "the identity of each reference formula with the RSPT quantity was confirmed once by running the library "
     "(definition vs GroundState derivation); the static check decides agreement with that reference",
     "R12f (declared spin blocks) is computed by the library at run time and not decided",
+    "vocabulary with assumed contract (not looked into here): get_symbols, the tensor constructors of sympy_objects.py, "
+    "tensor_names, RegisteredIntermediate.tensor/expand_itmd/validate_indices (C11), Expr(..).substitute_contracted(), "
+    ".permute/.subs/.copy/.expand/.sympy/.atoms(Index), sort_idx_canonical, sympy Rational/S/Pow",
+    "a definition that uses constructs outside the formula IR (foreign tensors, spin indices, sympy functions other than "
+    "the vocabulary) is an ANALYSIS-ERROR, never a guess",
 ]
 
 ORACLE = os.path.join(os.path.dirname(os.path.dirname(os.path.abspath(__file__))), "oracle", "itmd_normal_forms.json")
 
 
-def _load(ctx, name):
-    try:
-        return definition(ctx, name)
-    except _Typing as t:
-        return t
+def _load(ctx, name, fully_expand=False):
+    return definition_sx(ctx, name, fully_expand)  # (Poly, target, contracted) or the _Typing error
+
+
+def _index_counts(poly, target):
+    """-> (first violation of the index convention | None, summation indices, non-target indices in denominators)"""
+    tset = set(target)
+    used, in_denom = set(), set()
+    bad = None
+    for coef, fs in poly.terms:
+        if coef == 0:
+            continue
+        cnt = {}
+        for f in fs:
+            if f[0] == "denom":
+                in_denom |= {i for i in _factor_indices(f) if i not in tset}
+                continue
+            for i in _factor_indices(f):
+                cnt[i] = cnt.get(i, 0) + 1
+        for i, n in cnt.items():
+            if i in tset and n != 1 and bad is None:
+                bad = f"target index {i} occurs {n} times in one term"
+            if i not in tset:
+                used.add(i)
+                if n != 2 and bad is None:
+                    bad = f"summation index {i} occurs {n} times in one term"
+        missing = tset - set(cnt)
+        if missing and bad is None:
+            bad = f"a term does not carry the target index/indices {sorted(missing)}"
+    return bad, used, in_denom
 
 
 def r12a(ctx, defs):
@@ -57,31 +94,9 @@ def r12a(ctx, defs):
         poly, target, contracted = d
         ctx.check(rule, fn, tuple(target) == tuple(info["default_idx"]), f"{name}: declared targets are the default indices",
                   f"{name}: base_expr target {tuple(target)} differs from _default_idx {info['default_idx']}", fn=ref, key=f"{name} target")
-        tset = set(target)
-        used = set()
-        bad = None
-        for coef, fs in poly.terms:
-            if coef == 0:
-                continue
-            cnt = {}
-            for f in fs:
-                if f[0] == "denom":
-                    for i in _factor_indices(f):
-                        if i not in tset and bad is None:
-                            bad = f"denominator carries the non-target index {i}"
-                    continue
-                for i in _factor_indices(f):
-                    cnt[i] = cnt.get(i, 0) + 1
-            for i, n in cnt.items():
-                if i in tset and n != 1 and bad is None:
-                    bad = f"target index {i} occurs {n} times in one term"
-                if i not in tset:
-                    used.add(i)
-                    if n != 2 and bad is None:
-                        bad = f"summation index {i} occurs {n} times in one term"
-            missing = tset - set(cnt)
-            if missing and bad is None:
-                bad = f"a term does not carry the target index/indices {sorted(missing)}"
+        bad, used, in_denom = _index_counts(poly, target)
+        if bad is None and in_denom:
+            bad = f"denominator carries the non-target index {sorted(in_denom)[0]}"
         ctx.check(rule, fn, bad is None, f"{name}: every term has the target indices once and summation indices twice",
                   f"{name}: {bad}", fn=ref, key=f"{name} index counts")
         decl = set(contracted or ())
@@ -94,11 +109,10 @@ def r12a(ctx, defs):
 def r12b(ctx):
     rule = "R12b"
     reg = registry(ctx)
-    import re
     for name, info in reg.items():
         ref = f"intermediates:{name}._build_tensor"
         bt = info["build_tensor"]
-        ctx.check(rule, bt, info["partition_ok"], f"{name}: slices partition the indices", f"{name}: slices {info['slices']} overlap or leave a gap",
+        ctx.check(rule, bt, info["partition_ok"], f"{name}: slices partition the indices", f"{name}: the index groups {info['slices']} (positions in `indices`) overlap or leave a gap",
                   fn=ref, key=f"{name} partition")
         if info["tensor_kind"] == "Amplitude":
             up, lo = info["groups"]
@@ -135,20 +149,20 @@ def r12d(ctx, defs):
         poly, target, _ = d
         base = canonical(poly, target, reg)
         ref = f"intermediates:{name}._build_expanded_itmd"
+        sgn = 1 if info["tensor_kind"] == "SymmetricTensor" else -1
+        word = "symmetric" if sgn == 1 else "antisymmetric"
         for grp in info["groups"]:
-            if info["tensor_kind"] == "SymmetricTensor":
-                continue
             for a, b in zip(grp, grp[1:]):
                 if space_of(a) != space_of(b):
                     continue
                 n += 1
                 perm = canonical(poly.permute((a, b)), target, reg)
-                neg = {k: -v for k, v in base.items()}
-                ctx.check(rule, info["build"], perm == neg, f"{name}: antisymmetric under P_{a}{b}",
-                          f"{name}: the tensor is declared antisymmetric in ({a},{b}) but the definition is not: "
-                          f"P_{a}{b} X + X has {len(_diff(perm, neg))} non-cancelling term(s), e.g. {_example(perm, neg)}", fn=ref,
-                          key=f"{name} P_{a}{b}")
-        if info["bra_ket_sym"] == 1 and len(info["groups"]) == 2 and len(info["groups"][0]) == len(info["groups"][1]):
+                want = {k: sgn * v for k, v in base.items()}
+                ctx.check(rule, info["build"], perm == want, f"{name}: {word} under P_{a}{b}",
+                          f"{name}: the tensor is declared {word} in ({a},{b}) but the definition is not: "
+                          f"P_{a}{b} X {'-' if sgn == 1 else '+'} X has {len(_diff(perm, want))} non-cancelling term(s), e.g. {_example(perm, want)}",
+                          fn=ref, key=f"{name} P_{a}{b}")
+        if info["bra_ket_sym"] in (1, -1) and len(info["groups"]) == 2 and len(info["groups"][0]) == len(info["groups"][1]):
             up, lo = info["groups"]
             if all(space_of(x) == space_of(y) for x, y in zip(up, lo)):
                 n += 1
@@ -156,9 +170,14 @@ def r12d(ctx, defs):
                 for x, y in zip(up, lo):
                     mp[x], mp[y] = y, x
                 sw = canonical(poly.rename(mp), target, reg)
-                ctx.check(rule, info["build"], sw == base, f"{name}: symmetric under bra-ket exchange",
-                          f"{name}: the tensor is declared bra-ket symmetric but the definition changes under {up}<->{lo}: "
-                          f"{_example(sw, base)}", fn=ref, key=f"{name} braket")
+                want = {k: info["bra_ket_sym"] * v for k, v in base.items()}
+                bk = "symmetric" if info["bra_ket_sym"] == 1 else "antisymmetric"
+                ctx.check(rule, info["build"], sw == want, f"{name}: {bk} under bra-ket exchange",
+                          f"{name}: the tensor is declared bra-ket {bk} but the definition does not behave so under {up}<->{lo}: "
+                          f"{_example(sw, want)}", fn=ref, key=f"{name} braket")
+        elif info["bra_ket_sym"] not in (0, 1, -1):
+            ctx.bad(rule, info["build_tensor"], f"{name}: bra_ket_sym {info['bra_ket_sym']!r} is not 0, 1 or -1",
+                    fn=f"intermediates:{name}._build_tensor", key=f"{name} bra_ket_sym value")
     ctx.floor(rule, "declared symmetry operations checked", n, 25)
 
 
@@ -174,42 +193,105 @@ def _example(a, b):
     return show({k: a.get(k, 0) - b.get(k, 0)})[0][:160]
 
 
+def r12c(ctx, report=True):
+    """the integral builders the definitions are typed with build what the formula IR (and the factorisation) assume"""
+    rule = "R12c"
+    all_ok = True
+    cases = [
+        ("eri", ("p", "q", "r", "s"), tensor_factor("eri", "V", ("p", "q"), ("r", "s")), "<pq||rs>: antisymmetric, upper pq, lower rs"),
+        ("eri", "iajb", tensor_factor("eri", "V", ("i", "a"), ("j", "b")), "<ia||jb> from a string of names"),
+        ("eri", ("p", "q", "r"), "Inputerror", "3 indices are refused"),
+        ("eri", ("p", "q", "r", "s", "t"), "Inputerror", "5 indices are refused"),
+        ("fock", ("p", "q"), tensor_factor("fock", "f", ("p",), ("q",)), "f_pq: upper p, lower q"),
+        ("fock", ("p",), "Inputerror", "1 index is refused"),
+        ("fock", ("p", "q", "r"), "Inputerror", "3 indices are refused"),
+        ("orb_energy", "p", tensor_factor("e", "e", ("p",)), "e_p"),
+        ("orb_energy", ("p", "q"), "Inputerror", "2 indices are refused"),
+    ]
+    for fname, idx, want, what in cases:
+        fn = ctx.model.fn(f"intermediates:{fname}")
+        kind, val = builder(ctx, fname, idx)
+        if isinstance(want, str):
+            ok = kind == "raise" and val == want
+            got = f"raises {val}" if kind == "raise" else f"returns {_showval(val)}"
+        else:
+            ok = kind == "value" and isinstance(val, Poly) and val.terms == want.terms
+            got = f"raises {val}" if kind == "raise" else f"returns {_showval(val)}"
+        all_ok = all_ok and ok
+        if report:
+            ctx.check(rule, fn, ok, f"{fname}({idx!r}): {what}", f"{fname}({idx!r}) {got}; expected: {what}",
+                      fn=f"intermediates:{fname}", key=f"{fname} {idx!r}")
+    return all_ok
+
+
+def _showval(v):
+    if isinstance(v, Poly):
+        return " + ".join(f"{c} * " + " ".join(f"{f[1]}[" + "|".join(",".join(g) for g in f[2:]) + "]" for f in fs) for c, fs in v.terms)
+    return repr(v)
+
+
 def r12g(ctx, defs):
+    """contracted-index bookkeeping of the fully expanded variant (the library default)"""
     rule = "R12g"
     reg = registry(ctx)
-    hidden = {n for n, d in defs.items() if not isinstance(d, _Typing) and d[2]}
     n = 0
     for name, info in reg.items():
         fn = info["build"]
         ref = f"intermediates:{name}._build_expanded_itmd"
-        refs = set()
-        for a in walk_fn(fn):
-            if isinstance(a, (ast.Assign, ast.AnnAssign)) and a.value is not None and "self._registry[" in U(a.value):
-                try:
-                    refs.add(ast.literal_eval(a.value.slice))
-                except Exception:
-                    raise AnalysisError(f"{name}: registry lookup `{U(a.value)}` not literal")
-        needs = bool(refs & hidden) and info["itmd_type"] != "re_residual"
-        ret = common.returns_of(fn)[-1].value
-        third = U(ret.args[2]) if isinstance(ret, ast.Call) and len(ret.args) == 3 else "?"
-        if not needs:
+        once = defs[name]
+        hidden = []
+        if not isinstance(once, _Typing) and info["itmd_type"] != "re_residual":
+            # referenced intermediates whose own definition sums over indices (they are hidden in the tensor symbol)
+            hidden = sorted({f[1] for _, fs in once[0].terms for f in fs if f[0] == "itmd"
+                             and (isinstance(defs[f[1]], _Typing) or defs[f[1]][2])})
+            if hidden:
+                n += 1
+        full = _load(ctx, name, True)
+        if isinstance(full, _Typing):
+            if not isinstance(once, _Typing):
+                ctx.bad(rule, full.node, f"fully expanded variant: {full.msg}", fn=ref, key=f"{name} typing (fully expanded)")
             continue
-        n += 1
-        recompute = [a for a in walk_fn(fn) if isinstance(a, ast.Assign) and "contracted" in [U(t) for t in a.targets]
-                     and ("fully_expand", True) in conditions(a)]
-        ok = False
-        for a in recompute:
-            v = U(a.value).replace(" ", "")
-            if v.startswith("tuple(sorted([sforsin") and ".atoms(Index)ifsnotintarget],key=sort_idx_canonical))" in v:
-                ok = True
-        sc = [c for c in calls_in(fn) if call_name(c) == "substitute_contracted" and ("fully_expand", True) in conditions(c)]
-        ctx.check(rule, fn, ok and bool(sc) and third == "contracted",
-                  f"{name}: fully expanded variant minimises and recomputes its contracted indices",
-                  f"{name} expands {sorted(refs & hidden)}, whose definitions bring their own summation indices; in the fully_expand "
-                  "branch the contracted tuple must be recomputed as sorted(atoms(Index) - target) after substitute_contracted() "
-                  f"(found: recompute={ok}, substitute_contracted={bool(sc)}, returned `{third}`): otherwise the hidden indices are "
-                  "never refreshed and collide with target names like k, l, c, d", fn=ref, key=f"{name} contracted bookkeeping")
+        poly, target, contracted = full
+        bad, used, _ = _index_counts(poly, target)
+        if tuple(target) != tuple(info["default_idx"]):
+            bad = bad or f"target {tuple(target)} differs from _default_idx {info['default_idx']}"
+        ctx.check(rule, fn, bad is None, f"{name}: fully expanded variant carries the targets once and summation indices twice per term",
+                  f"{name} (fully_expand=True): {bad}", fn=ref, key=f"{name} index counts (fully expanded)")
+        decl = list(contracted or ())
+        ok = len(set(decl)) == len(decl) and set(decl) == used
+        ctx.check(rule, fn, ok, f"{name}: fully expanded variant declares exactly its {len(used)} summation indices",
+                  f"{name} (fully_expand=True) " + (f"expands {hidden}, whose definitions bring their own summation indices; it " if hidden else "")
+                  + f"declares the contracted indices {sorted(decl)} but the cached expression sums over {sorted(used)}"
+                  f" (undeclared: {sorted(used - set(decl))}, unused: {sorted(set(decl) - used)}): undeclared indices are never "
+                  "refreshed by expand_itmd and collide with target names like k, l, c, d", fn=ref, key=f"{name} contracted bookkeeping")
     ctx.floor(rule, "definitions that expand intermediates with hidden summation indices", n, 7)
+
+
+def r12j(ctx, defs):
+    """both variants of the cached base expression denote the same quantity"""
+    rule = "R12j"
+    reg = registry(ctx)
+    n = 0
+    for name, info in reg.items():
+        once = defs[name]
+        full = _load(ctx, name, True)
+        if isinstance(once, _Typing) or isinstance(full, _Typing):
+            continue
+        ref = f"intermediates:{name}._build_expanded_itmd"
+        try:
+            if info["itmd_type"] == "re_residual":
+                want, how = once[0], "the once expanded variant (residuals are not expanded further)"
+            else:
+                want, how = substituted(ctx, once[0], reg, name), "the once expanded variant with the referenced definitions inserted"
+        except _Typing:
+            continue
+        a = canonical(full[0], full[1], reg)
+        b = canonical(want, once[1], reg)
+        n += 1
+        ctx.check(rule, info["build"], a == b and list(full[1]) == list(once[1]), f"{name}: fully expanded variant ({len(a)} terms) = {how}",
+                  f"{name}: _build_expanded_itmd(fully_expand=True) is not {how}: {len(_diff(a, b))} term(s) differ, e.g. "
+                  f"{_example(a, b)}", fn=ref, key=f"{name} variants")
+    ctx.floor(rule, "definitions with both variants compared", n, 20)
 
 
 def r12i(ctx, defs):
@@ -273,6 +355,12 @@ def r12h(ctx, defs):
 def run(ctx):
     reg = registry(ctx)
     ctx.floor("R12a", "registered definitions", len(reg), 25)
+    # the definitions are typed with eri/fock/orb_energy: when these do not build the integrals of the formula IR
+    # nothing else can be decided (and everything else would be a consequence)
+    if not r12c(ctx, report=ctx.want("R12c")):
+        if not ctx.want("R12c"):
+            raise AnalysisError("eri/fock/orb_energy do not build the integrals the formula IR assumes (see rule R12c)")
+        return
     defs = {n: _load(ctx, n) for n in reg}
     if ctx.want("R12a"):
         r12a(ctx, defs)
@@ -282,6 +370,8 @@ def run(ctx):
         r12d(ctx, defs)
     if ctx.want("R12g"):
         r12g(ctx, defs)
+    if ctx.want("R12j"):
+        r12j(ctx, defs)
     if ctx.want("R12i"):
         r12i(ctx, defs)
     if ctx.want("R12h"):
